@@ -50,10 +50,16 @@ def _check_median(case):
             if n:
                 cnt += 1
                 rows = [(i * 0.5, "k%d" % i, v, -v) for i, v in enumerate(seq)]
-                st, r2, _ = call(my_math.filterTimeSeriesData, my_math.medianFilter, [tuple(x) for x in rows], w, 2, pad)
-                if st == "exc" or [tuple(x) for x in r2] != [(a, b, e, d) for (a, b, _, d), e in zip(rows, exp)]:
-                    viols.append(Viol("filterTimeSeriesData", f"filterTimeSeriesData(medianFilter, {rows}, {w}, 2, {pad}) = {r2!r}; rows, order and the "
-                                                              f"other columns must be untouched and column 2 filtered to {exp}"))
+                # the rows in several FORMS: list of tuples, tuple of lists, a generator of tuples (walkable once)
+                for form, arg in (("list of tuples", [tuple(x) for x in rows]), ("tuple of lists", tuple(list(x) for x in rows)),
+                                  ("generator", (tuple(x) for x in rows))):
+                    if form != "list of tuples" and (w + pad + n) % 3:
+                        continue
+                    st, r2, _ = call(my_math.filterTimeSeriesData, my_math.medianFilter, arg, w, 2, pad)
+                    if st == "exc" or [tuple(x) for x in r2] != [(a, b, e, d) for (a, b, _, d), e in zip(rows, exp)]:
+                        viols.append(Viol("filterTimeSeriesData", f"filterTimeSeriesData(medianFilter, <{form}> {rows}, {w}, 2, {pad}) = {r2!r}; rows, order "
+                                                                  f"and the other columns must be untouched and column 2 filtered to {exp}"))
+                        break
     if seq != list(case):
         viols.append(Viol("medianFilter-mutated-input", f"{case}"))
     return cnt, "ok", (tuple(case),), viols
